@@ -122,6 +122,10 @@ func (g *svGen) message(hops int, allowTimer bool) map[string]interface{} {
 				"id": g.id(), "in": []string{"1ms", "10ms", "1s"}[c.Intn(3, "tin")], "message": inner}}
 		}
 	}
+	if c.Chance(1, 8, "nan") {
+		// a recipient computes a state that cannot be encoded: the round's write fails
+		m["nan"] = map[string]interface{}{g.mids[c.Intn(len(g.mids), "nanmid")]: true}
+	}
 	if hops > 0 && c.Chance(2, 3, "emits") {
 		em := map[string]interface{}{}
 		for _, mid := range g.mids {
@@ -170,11 +174,26 @@ func svPredict(msg map[string]interface{}, mids []string, seen map[string]map[st
 				}
 			}
 		}
+		// if a recipient's new state cannot be encoded the round's write fails and no
+		// recipient's state advances (nobody records the message); the messages the
+		// other recipients emitted are still reported and fed back
+		writeFails := false
+		nan, _ := m["nan"].(map[string]interface{})
+		for _, mid := range rcpt {
+			if nan[mid] == true {
+				writeFails = true
+			}
+		}
 		for _, mid := range rcpt {
 			if seen[mid] == nil {
 				seen[mid] = map[string]int{}
 			}
-			seen[mid][id]++
+			if !writeFails {
+				seen[mid][id]++
+			}
+			if nan[mid] == true {
+				continue // returns before emitting anything
+			}
 			if em, ok := m["emit"].(map[string]interface{}); ok {
 				if l, ok := em[mid].([]interface{}); ok {
 					for _, e := range l {
@@ -249,8 +268,11 @@ func runC14Mcrew(c *sim.Ctx, t *testing.T) {
 					sim.Yield("h#submit")
 					walkeds, err := svc.Process(ctx, svJSONCopy(m), ctl)
 					if err != nil {
-						rets[i] = append(rets[i], "ERR:"+err.Error())
-						continue
+						if _, unencodable := m["nan"]; !unencodable {
+							rets[i] = append(rets[i], "ERR:"+err.Error())
+							continue
+						}
+						// the write of this round failed, as it must; the walks are still returned
 					}
 					for _, w := range walkeds {
 						for _, st := range w.Strides {
